@@ -137,10 +137,7 @@ theorem forward_is_rbd_of_reverse (b : Branch) (t : Nat) (hw : wf b.g = true) (h
   rw [hms] at hms'; cases hms'
   obtain ⟨r, hr⟩ := rbd_total (ms.map ofMS)
   refine ⟨_, r, hrev, hr, ?_⟩
-  simp only [logRequest, revisionLimits, calcView, generateAll, htip, Bool.not_true, hgv, levelLimit]
-  trace_state
-  simp only [hr]
-  first | rfl | simp
+  simp [logRequest, revisionLimits, calcView, generateAll, htip, hgv, levelLimit, hr]
 
 /-- **levels=1 lists exactly the left-hand history**, numbered from the tip's revno downwards. -/
 theorem level1_is_lefthand (b : Branch) (t : Nat) (htip : b.tip = some t) (fwd : Bool) :
